@@ -514,4 +514,13 @@ def ru_names_bound(ctx: Ctx) -> None:
     names_rule(ctx)
 
 
-RULES = [r1_errors_carry_location, r2_position_before_newline, r3_single_writer, r4_string_characters_all_tested, rb_binding_agreement, rm_no_process_lifetime_results, ru_names_bound]
+
+def r5_skips_stay_on_the_line(ctx: Ctx) -> None:
+    """blanks skipped inside a statement are spaces (and tabs), never the newline: an error raised after such a skip is still on the line of
+    the token it is about (C16.R2)"""
+    from .c16 import r2_skip_sets
+
+    r2_skip_sets(ctx)
+
+
+RULES = [r1_errors_carry_location, r2_position_before_newline, r3_single_writer, r4_string_characters_all_tested, r5_skips_stay_on_the_line, rb_binding_agreement, rm_no_process_lifetime_results, ru_names_bound]
